@@ -658,18 +658,26 @@ func (ev *evaluator) call(x ECall) *Val {
 			as = append(as, ev.toSort(v, specSort(g.Params[i])))
 		}
 		rs := specSort(g.Result)
+		var rt types.Type
+		if strings.HasPrefix(g.Result, "*") {
+			sub := &evaluator{st: st, vf: ev.vf, env: nil, pkgPath: g.PkgPath}
+			rt = sub.resolveType(g.Result)
+			if rt == nil {
+				return ev.fail("ghost %s: unknown result type %s", x.Fun, g.Result)
+			}
+		}
 		if g.Field {
 			key := "G:" + x.Fun
 			t := st.heapGet(key, ghostFieldSort(g))
 			for _, a := range as {
 				t = sel(t, a)
 			}
-			return &Val{S: rs, Tm: t}
+			return &Val{T: rt, S: rs, Tm: t}
 		}
 		if len(as) == 0 {
-			return &Val{S: rs, Tm: sym("g_" + x.Fun)}
+			return &Val{T: rt, S: rs, Tm: sym("g_" + x.Fun)}
 		}
-		return &Val{S: rs, Tm: "(" + sym("g_"+x.Fun) + " " + strings.Join(as, " ") + ")"}
+		return &Val{T: rt, S: rs, Tm: "(" + sym("g_"+x.Fun) + " " + strings.Join(as, " ") + ")"}
 	}
 	return ev.fail("unknown function %s", x.Fun)
 }
@@ -862,7 +870,7 @@ func (vf *VerifyFunc) checkFrame(st *State, where string) {
 		if strings.HasPrefix(k, "L:") || strings.HasPrefix(k, "V:err:") || wild[k] {
 			continue
 		}
-		as := st.eng.heapSorts[k]
+		as := st.eng.heapSort(k)
 		n0 := st.initialHeapName(k, 0)
 		cur := st.heap[k]
 		if cur == sym(n0) {
